@@ -24,8 +24,10 @@ structure InvA (c : Cfg) (st : StA) : Prop where
   rflagOn : ∀ j, (st.ph j = .running ∨ (st.ph j).isDone = true) → st.rflag j = true
   /-- only finished tasks are handed over by `asyncio.wait` -/
   delivFin : ∀ k, st.deliv k = true → ((st.ph k).isDone = true ∨ st.ph k = .cancelled)
-  /-- C01: a job that was started has all its requirements finished (and reported) -/
-  reqsDone : ∀ k, 0 < k → k < c.n → st.ph k ≠ .idle → ∀ r ∈ c.req k, (st.ph r).isDone = true ∧ st.deliv r = true
+  /-- C01: a job that was started has all its requirements finished -/
+  reqsDone : ∀ k, 0 < k → k < c.n → st.ph k ≠ .idle → ∀ r ∈ c.req k, (st.ph r).isDone = true
+  /-- a pending reaction belongs to a run in its main loop, and its `done` set was handed over -/
+  rxLoop : ∀ s D, st.rx s = some D → st.pc s = .loop ∧ ∀ d ∈ D, st.deliv d = true
   /-- C07: the window queue holds one item per executing job -/
   qcountEq : ∀ s, s < c.n → c.isSched s = true → st.qcount s = runningCount c st s
   qcountLe : ∀ s, s < c.n → c.isSched s = true → c.window s ≠ 0 → st.qcount s ≤ c.window s
@@ -33,9 +35,10 @@ structure InvA (c : Cfg) (st : StA) : Prop where
   entries0 : ∀ j, (st.ph j = .idle ∨ st.ph j = .queued) → st.entries j = 0
   entries1 : ∀ j, st.entries j ≤ 1
   noDbl : st.dbl = false
-  /-- C12: while a run is in its main loop, an idle job has a requirement that is not finished-and-reported -/
+  /-- C12: while a run is in its main loop, an idle job has a requirement that is not
+      finished-and-reported-and-reacted-to -/
   eager : ∀ s, st.pc s = .loop → ∀ k ∈ c.children s, st.ph k = .idle →
-            ∃ r ∈ c.req k, ¬ ((st.ph r).isDone = true ∧ st.deliv r = true)
+            ∃ r ∈ c.req k, ¬ ((st.ph r).isDone = true ∧ st.deliv r = true ∧ r ∉ (st.rx s).getD [])
   /-- cancellation is only pending on unfinished tasks -/
   creqLive : ∀ j, st.creq j = true → (st.ph j).live = true
 
